@@ -84,9 +84,10 @@ class StatThresholdAnomaliser(CollectiveAnomalyDetector):
         X = pd.DataFrame(X)  # np.ndarray input cannot be concatenated below.
         # This is the required output format for the rest of the code to work.
         segments = self.change_detector_.transform(X)["labels"]
-        df = pd.concat([X, segments], axis=1)
         anomalies = []
-        for _, segment in df.reset_index(drop=True).groupby("labels"):
+        # Group on the label values rather than on a column called "labels": the data
+        # may itself have a column (or Series name) "labels".
+        for _, segment in X.reset_index(drop=True).groupby(segments.to_numpy()):
             segment_stat = self.stat(segment.iloc[:, 0].values)
             if (segment_stat < self.stat_lower) | (segment_stat > self.stat_upper):
                 anomalies.append((int(segment.index[0]), int(segment.index[-1] + 1)))
